@@ -79,6 +79,12 @@ func (s *CollapsingLowestDenseStore) extendRange(newMinIndex, newMaxIndex int) {
 	if s.IsEmpty() {
 		initialLength := s.getNewLength(newMinIndex, newMaxIndex)
 		s.bins = append(s.bins, make([]float64, initialLength)...)
+		if newMaxIndex-newMinIndex+1 > initialLength {
+			// The range is wider than the store: the store being empty, there is nothing to
+			// move, the lowest indices will be collapsed as they are added.
+			newMinIndex = newMaxIndex - initialLength + 1
+			s.isCollapsed = true
+		}
 		s.offset = newMinIndex
 		s.minIndex = newMinIndex
 		s.maxIndex = newMaxIndex
